@@ -19,6 +19,11 @@ A case is a JSON-able dict:
             in __init__, several / keyword-only constructor arguments, re-ordered args, attributes and notes,
             `raise ... from cause`, own __reduce__); an exception the caller receives is canonicalised by a complete
             observation (type, args, str(), attributes, notes, cause) - see `observe` / `canon`
+            iterator items beyond v / n / f<j>:  f4.. are odd constants (a tuple, bytes, 0.0, a user object that merely looks
+            like the library's RaiseException wrapper, a dict);  y<c>[p<s>] YIELDS an exception instance of class c
+            (payload shape s) as a value - a replay has to yield it too, never raise it;  m updates ONE dict object that the
+            run keeps and yields that same object again (row["i"] = i; yield row): the replay has to be the sequence of the
+            item's STATES at the moments it was yielded (for the model an m step is a v step)
   ops       [["call", arg_index, form_index], ["adv", ticks], ...]
             arg_index indexes ARGS: bound (a, b) tuples, some of which are EQUAL BUT DIFFERENT arguments (1 / True / 1.0,
             0 / False / 0.0, 2 / 2.0): "the same bound arguments" is the rendered key of C08 (1 -> '1', True -> 'true',
@@ -196,7 +201,38 @@ def describe_exc(exc: BaseException) -> str:
     if cause is not None:
         text += "+cause:" + type(cause).__qualname__
     return "X:" + text.replace(",", ";").replace(" ", "_")[:120]
+class RaiseException:
+    """a USER's class that merely looks like the library's internal wrapper (same name, same attribute): an item like any
+    other"""
+
+    def __init__(self, exc):
+        self.exc = exc
+
+    def __eq__(self, other):
+        return type(other) is type(self) and observe(other.exc) == observe(self.exc)
+
+    def __hash__(self):
+        return hash(observe(self.exc))
+
+    def __repr__(self):
+        return f"LookAlikeRaiseException({self.exc!r})"
+
+
 FALSY = [0, "", [], False]
+# constants an execution can return / a generator can yield: the falsy ones, then other odd values ("whatever the items are")
+CONSTS = FALSY + [(1, "a"), b"raw", 0.0, RaiseException(ValueError("inner")), {"k": 1, "z": None}]
+# payload shapes of an exception instance that is YIELDED as an item: those that both copy.copy (in-memory backend) and pickle
+# rebuild faithfully and whose instances are truthy (a condition that hands the item back is asked for its truth value)
+EOBJ_SHAPES = [0, 5, 7]
+
+
+def make_exc(c: int, shape: int, n: int) -> Exception:
+    """the exception instance that `raise_exc(c, shape, n)` raises, as an object"""
+    try:
+        raise_exc(c, shape, n)
+    except Exception as exc:  # noqa: BLE001
+        return exc.with_traceback(None)
+    raise HarnessError("raise_exc did not raise")
 # bound (a, b); index = key id of the model.  0-3: one type only; from 4 on: values that are == to an earlier one but are
 # different arguments (another type): "same bound arguments" is decided by type and value - as C08's key rendering does
 # (1 -> '1', True -> 'true', 1.0 -> '1.0') -, never by ==/hash.
@@ -277,10 +313,21 @@ def canon(value) -> str:
     if isinstance(value, str) and value.startswith("v"):
         body = value[1:]
         return "v" + body if "." in body else f"v{body}.0"
-    for j, f in enumerate(FALSY):
+    if type(value) is dict and set(value) == {"run", "i"}:       # the row object of an `m` step, as it is right now
+        return f"v{value['run']}.{value['i']}"
+    for j, f in enumerate(CONSTS):
         if type(value) is type(f) and value == f:
             return f"f{j}"
     return "?" + repr(value)[:30]
+
+
+def canon_item(x) -> str:
+    """an item a consumer was handed: an exception instance that is YIELDED is y<c>[p<s>].<n> (x... is reserved for what is
+    raised)"""
+    if isinstance(x, BaseException):
+        c = canon(x)
+        return "y" + c[1:] if c.startswith("x") else "yielded:" + c
+    return canon(x)
 
 
 def kind_of(c: str) -> str:
@@ -293,12 +340,14 @@ def kind_of(c: str) -> str:
         return "f"
     if c.startswith("x"):
         return "e" + c[1:].split(".")[0]
+    if c.startswith("y"):
+        return "y" + c[1:].split(".")[0]
     return "?"
 
 
 def base_kind(kind: str) -> str:
     """the kind without its payload shape: e1p3 -> e1 (conditions and TTL callables see the class only)"""
-    return kind.split("p")[0] if kind.startswith("e") else kind
+    return kind.split("p")[0] if kind[:1] in ("e", "y") else kind
 
 
 def exc_of_kind(kind: str):
@@ -312,7 +361,7 @@ class _KindIdx(dict):
         return self[base_kind(kind)] if kind != base_kind(kind) else dict.__getitem__(self, kind)
 
 
-KIND_IDX = _KindIdx({"v": 0, "n": 1, "f": 2, "e0": 3, "e1": 4, "e2": 5})
+KIND_IDX = _KindIdx({"v": 0, "n": 1, "f": 2, "e0": 3, "e1": 4, "e2": 5, "y0": 3, "y1": 4, "y2": 5, "m": 0})
 
 
 def res_idx(kind: str) -> int:
@@ -431,6 +480,21 @@ def cond_accepts_spec(cond: str, kind: str, dur: int, *, item: bool = False) -> 
     any truthy value) and exceptions it returns."""
     kind = base_kind(kind)      # the payload of an exception plays no part in its selection
     is_exc = kind.startswith("e")
+    if kind.startswith("y"):
+        # an exception INSTANCE yielded as an item: conditions that look at the class (`isinstance(result, exceptions)`) see an
+        # instance of it and hand it back - for an item any truthy answer accepts
+        if not item:
+            raise HarnessError("an exception object as a return value of the basic decorator is outside the alphabet")
+        if cond in ("all", "nn"):
+            return True
+        if cond[:3] in ("we:", "oe:"):
+            sel = [int(x) for x in cond[3:].split("+") if x]
+            return (not sel or int(kind[1:]) in sel) or cond.startswith("we:")
+        if cond.startswith("fn:"):
+            return cond[3:][KIND_IDX[kind]] in "TyX"
+        raise HarnessError(f"bad condition {cond} for an item")
+    if kind == "m":
+        kind = "v"
     if "&" in cond:             # time_condition= together with condition=: stored only if both accept
         tc, inner = cond.split("&", 1)
         return dur > int(tc[3:]) and cond_accepts_spec(inner, kind, dur, item=item)
@@ -578,6 +642,14 @@ def check_case(case: dict):
     for b in case["script"]:
         kinds += [parse_beh(b)[0]] if case["kind"] == "simple" else [k for k, _ in parse_run(b)[0]]
     for k in kinds:
+        if k.startswith("y"):
+            c, shape = exc_of_kind(k)
+            if case["kind"] == "simple" or shape not in EOBJ_SHAPES or c >= len(EXC):
+                raise HarnessError(f"bad item kind {k}")
+        if k == "m" and case["kind"] == "simple":
+            raise HarnessError("m steps are for generators")
+        if k.startswith("f") and int(k[1:]) >= len(CONSTS):
+            raise HarnessError(f"bad constant {k}")
         if k.startswith("e"):
             c, shape = exc_of_kind(k)
             if (c, shape) not in SHAPE_CLS:
@@ -664,7 +736,7 @@ def execute(case: dict):
                     return None
                 if k.startswith("f"):
                     entry["res"] = k
-                    return FALSY[int(k[1:])]
+                    return CONSTS[int(k[1:])]
                 c, shape = exc_of_kind(k)
                 entry["res"] = f"x{k[1:]}.{n}"
                 raise_exc(c, shape, n)
@@ -700,6 +772,7 @@ def execute(case: dict):
                          "complete": False, "ended": None}
                 log.append(entry)
                 block = ctl["cancel_at"]             # the step during which this call's consumer will be cancelled
+                row: dict = {}                       # the one object that `m` steps update and yield again
                 try:
                     for i, (k, delay) in enumerate(steps):
                         if block == i:
@@ -713,16 +786,24 @@ def execute(case: dict):
                             entry["ended"] = "raised"
                             entry["end"] = CLOCK.ticks()
                             raise_exc(*exc_of_kind(k), n)
-                        entry["kinds"].append("f" if k.startswith("f") else k)
+                        entry["kinds"].append("f" if k.startswith("f") else "v" if k == "m" else k)
                         if k == "v":
                             entry["outs"].append(f"v{n}.{i}")
                             yield f"v{n}.{i}"
+                        elif k == "m":
+                            entry.setdefault("mutable_positions", []).append(i)
+                            entry["outs"].append(f"v{n}.{i}")
+                            row["run"], row["i"] = n, i
+                            yield row
                         elif k == "n":
                             entry["outs"].append("n")
                             yield None
+                        elif k.startswith("y"):
+                            entry["outs"].append(f"y{k[1:]}.{n}")
+                            yield make_exc(*exc_of_kind(k), n)
                         else:
                             entry["outs"].append(k)
-                            yield FALSY[int(k[1:])]
+                            yield CONSTS[int(k[1:])]
                     if block == len(steps):
                         ctl["reached"].set()
                         await asyncio.Event().wait()
@@ -762,7 +843,7 @@ def execute(case: dict):
         ctl = {"cancel_at": None, "reached": None, "block": False, "gate": None, "cut": 0}
 
         def note(x):
-            return ("yielded:" if isinstance(x, BaseException) else "") + canon(x)
+            return canon_item(x)       # taken when the item is received: what the item is at that moment
 
         async def settle():
             """let the event loop finalise every stream that was dropped (the asyncgen hooks close them in tasks of
@@ -927,7 +1008,10 @@ def execute(case: dict):
 
 def model_lines(case: dict, trace=None) -> list[str]:
     head = f"{'simple' if case['kind'] == 'simple' else 'iter'} {case['cond']} {case['ttl']}"
-    script = ("script " if case["kind"] == "simple" else "runs ") + " ".join(case["script"])
+    entries = case["script"]
+    if case["kind"] != "simple":        # for the model an `m` step is a payload step: an item is what it was when it was yielded
+        entries = [",".join("v" + st[1:] if st[:1] == "m" else st for st in r.split("/")[0].split(",")) + "/" + r.split("/")[1] for r in entries]
+    script = ("script " if case["kind"] == "simple" else "runs ") + " ".join(entries)
     ops = []
     for op in case["ops"]:
         if op[0] == "adv":
@@ -1068,6 +1152,19 @@ def oracle(case: dict, trace, log):
                             and x["outs"][-1].startswith("x")):
                         why = (f"run {x['n']} delivered the same items and then raised {expected_exc_text(x['outs'][-1])}; "
                                f"the replay ends with {items[-1]}: not the exception that was raised")
+            if not ok and why.startswith("no run") and items:
+                for x in log[:seen]:
+                    j = len(items) - 1
+                    if (x["key"] == k and x["complete"] and j < len(x["outs"]) and x["outs"][:j] == items[:j]
+                            and items[j].startswith("x") and x["outs"][j] == "y" + items[j][1:]):
+                        why = (f"run {x['n']} YIELDED the exception object {expected_exc_text(items[j])} as its item {j} - a value like any "
+                               f"other, followed by {len(x['outs']) - j - 1} more item(s) - but the replay RAISED it: a replay yields "
+                               f"whatever the run yielded")
+                    elif (x["key"] == k and x["complete"] and x.get("mutable_positions") and len(items) == len(x["outs"])
+                          and all(a == b or i in x["mutable_positions"] for i, (a, b) in enumerate(zip(items, x["outs"])))):
+                        why = (f"run {x['n']} yielded ONE dict object that it kept updating (items {x['mutable_positions']}): its consumer "
+                               f"saw {x['outs']}, the replay shows the object in a later state - a replay is the sequence of the items as "
+                               f"they were when they were yielded")
             if not ok and why.startswith("no run"):
                 for x in log[:seen]:
                     if x["key"] != k and x["complete"] and shows(x) and items and any(it[0] in "vx" for it in items):
